@@ -71,6 +71,12 @@ def shrink(case):
         c = _clone(case)
         del c['prog']['faults'][fi]
         yield c
+    for ti, t in enumerate(prog['threads']):
+        if 'round2' in t:
+            c = _clone(case)
+            del c['prog']['threads'][ti]['round2']
+            c['prog']['faults'] = [f for f in c['prog']['faults'] if not (f.get('thread') == ti and f.get('caller', -1) >= len(t['callers']))]
+            yield c
     # simplify thread attributes
     for ti, t in enumerate(prog['threads']):
         if t['arrive']:
